@@ -731,8 +731,18 @@ class C16(Prop):
     assumptions = ["generated modules have no import-time side effects outside their own namespace",
                    "no __livepatch__ hooks and no metaclasses in the generated modules (not modelled)"]
 
+    _root = None
+
     def setup(self, tier, rng):
         sys.dont_write_bytecode = True
+        # every case directory lives below one per-run directory that teardown() removes, so nothing survives a
+        # worker that is terminated at the deadline
+        self._root = tempfile.mkdtemp(prefix="c16run_")
+
+    def teardown(self):
+        if self._root:
+            shutil.rmtree(self._root, ignore_errors=True)
+            self._root = None
 
     def gen_case(self, rng, i, tier):
         c = gen_c16.gen_case(rng, tier)
@@ -776,7 +786,7 @@ class C16(Prop):
         sys.dont_write_bytecode = True
         _COUNTER[0] += 1
         name = "c16m%d_%d" % (os.getpid(), _COUNTER[0])
-        d = tempfile.mkdtemp(prefix="c16_")
+        d = tempfile.mkdtemp(prefix="c16_", dir=self._root if self._root and os.path.isdir(self._root) else None)
         d = os.path.realpath(d)
         path = os.path.join(d, name + ".py")
         fdir = os.path.join(d, "fresh")
